@@ -89,9 +89,9 @@ def run():
             e = t.format(a=a, b=b)
             histories.append([e, e.replace("4]", "5]").replace("7)", "8)").replace("k: 1", "k: 2"), t.format(a="w1", b=a) if "{b}" in t else t.format(a="w1")])
     # (3) seeded random deeper histories
-    for _ in range(4000 if thorough else 600):
+    for _ in range(20000 if thorough else 600):
         h = []
-        for step in range(rng.randint(3, 6)):
+        for step in range(rng.randint(3, 9 if thorough else 6)):
             live = names + [f"w{j + 1}" for j in range(step)]
             t = rng.choice(TEMPLATES)
             h.append(t.format(a=rng.choice(live), b=rng.choice(live)))
